@@ -23,14 +23,18 @@ import (
 
 	"verif/h/fw"
 	"verif/h/fw/mapiter"
+	"verif/h/node"
 
 	"com.tuntun.rangers/node/src/common"
+	"com.tuntun.rangers/node/src/consensus/access"
 	"com.tuntun.rangers/node/src/consensus/base"
 	"com.tuntun.rangers/node/src/consensus/groupsig"
 	bn "com.tuntun.rangers/node/src/consensus/groupsig/bn256"
 	"com.tuntun.rangers/node/src/consensus/logical"
 	"com.tuntun.rangers/node/src/consensus/logical/group_create"
 	"com.tuntun.rangers/node/src/consensus/model"
+	cnet "com.tuntun.rangers/node/src/consensus/net"
+	"com.tuntun.rangers/node/src/core"
 	"com.tuntun.rangers/node/src/middleware/notify"
 	"com.tuntun.rangers/node/src/middleware/types"
 )
@@ -50,8 +54,11 @@ type kase struct {
 	Ch   []int    `json:"choices"`             // explorer choice sequence (random k-pick, map iteration start positions)
 	IDv  []string `json:"id_values,omitempty"` // informational
 
-	M    string `json:"message_hex,omitempty"` // sweep: the message
-	Cand int    `json:"candidates,omitempty"`  // parent: size of the new group's candidate list (n is the parent group's size)
+	M     string `json:"message_hex,omitempty"` // sweep: the message
+	Fault string `json:"fault,omitempty"`       // round1-fault: kind of the one non-counting piece
+	FMem  int    `json:"fault_member,omitempty"`
+	FPos  int    `json:"fault_position,omitempty"` // it is delivered before the FPos-th honest piece
+	Cand  int    `json:"candidates,omitempty"`     // parent: size of the new group's candidate list (n is the parent group's size)
 
 	minDev int // executions with fewer deviations repeat an earlier phase and are not counted again
 }
@@ -265,6 +272,7 @@ type group struct {
 	expect   [][]byte   // [msg] Sign(sum of dealer secrets, m)
 	geOrder  int
 	zeroRes  int           // members whose id is 0 mod the order (id == order)
+	gid      *groupsig.ID  // set once the group is in the joined-group storage
 	cands    []groupsig.ID // candidate list handed to the DKG context: the members plus two more (a different size)
 	setupBad []result
 }
@@ -775,6 +783,97 @@ func round1Run(g *group, mi int, ord []int, ch *fw.Chooser) result {
 		func(j int, s groupsig.Signature) { gen.AddWitnessSign(g.ids[j], s) }, gen.SignRecovered, gen.GetGroupSign)
 }
 
+var faultKinds = []string{"good-block+bad-beacon", "bad-block+good-beacon", "both-bad", "duplicate"}
+
+// joined makes the group known to the node's joined-group storage (member sign public keys), which is
+// where round1.Update looks the sender's key up.
+func (g *group) joined() groupsig.ID {
+	if g.gid == nil {
+		jg := model.NewJoindGroupInfo(g.signSk[0], g.gpk, g.hash)
+		for i := 0; i < g.n; i++ {
+			jg.AddMemberSignPK(g.ids[i], g.memPub[i])
+		}
+		belong.JoinGroup(jg, g.ids[0])
+		id := jg.GroupID
+		g.gid = &id
+	}
+	return *g.gid
+}
+
+// round1FaultRun: the honest pieces of members `ord` (>= threshold of them) arrive at a production
+// round1 in that order; one more piece that must not count (kind) from member fmem is delivered before
+// the fpos-th honest piece.  The round must end with the one block signature and the one beacon value.
+func round1FaultRun(g *group, ord []int, kind string, fmem, fpos int) result {
+	var r result
+	p, v, site := fw.Try(func() {
+		gid := g.joined()
+		bhash := common.BytesToHash(g.msgs[0]) // the block share is a signature over the block hash
+		bh := &types.BlockHeader{Hash: bhash, Height: 100, GroupId: gid.Serialize()}
+		pre := &types.BlockHeader{Hash: common.BytesToHash(h256("c13 previous block")), Height: 99, Random: g.msgs[1]}
+		vr := logical.VerifRoundNew(belong, &chainStub{}, netStub{}, g.ids[0], g.groupInfo(), bh, pre)
+		if vr == nil {
+			panic("harness: round1 could not be constructed")
+		}
+		seq := 0
+		piece := func(j int, block, beacon []byte) *model.ConsensusVerifyMessage {
+			seq++
+			return &model.ConsensusVerifyMessage{
+				BlockHash:  bhash,
+				RandomSign: *groupsig.DeserializeSign(beacon),
+				SignInfo:   model.MakeSignInfo(bhash, *groupsig.DeserializeSign(block), g.ids[j], int32(common.ConsensusVersion)),
+				Id:         fmt.Sprintf("c13-piece-%d-from-%d", seq, j),
+			}
+		}
+		honest := func(j int) *model.ConsensusVerifyMessage { return piece(j, g.shares[0][j], g.shares[1][j]) }
+		// a share that is the member's signature, but not over this block hash / not over preBH.Random
+		badBlock := groupsig.Sign(g.signSk[fmem], h256("c13 some other block hash")).Serialize()
+		badBeacon := groupsig.Sign(g.signSk[fmem], h256("c13 some other previous random")).Serialize()
+		var faulty *model.ConsensusVerifyMessage
+		switch kind {
+		case "good-block+bad-beacon":
+			faulty = piece(fmem, g.shares[0][fmem], badBeacon)
+		case "bad-block+good-beacon":
+			faulty = piece(fmem, badBlock, g.shares[1][fmem])
+		case "both-bad":
+			faulty = piece(fmem, badBlock, badBeacon)
+		case "duplicate":
+			faulty = honest(fmem)
+		default:
+			panic("fault kind")
+		}
+		for t := 0; t <= len(ord); t++ {
+			if t == fpos {
+				if err := vr.VerifRoundUpdate(faulty); err != nil {
+					panic(fmt.Sprintf("harness: round1.Update returned %v", err))
+				}
+			}
+			if t < len(ord) {
+				if err := vr.VerifRoundUpdate(honest(ord[t])); err != nil {
+					panic(fmt.Sprintf("harness: round1.Update returned %v", err))
+				}
+			}
+		}
+		h := vr.VerifRoundHeader()
+		where := fmt.Sprintf("%s@%d", kind, fpos)
+		desc := fmt.Sprintf("group of %d (threshold %d): honest pieces of members %v in this order, one %s piece from member %d delivered before honest piece #%d", g.n, g.k, ord, kind, fmem, fpos)
+		if len(h.Signature) == 0 || len(h.Random) == 0 || !vr.VerifRoundCanProceed() {
+			r = result{bad: true, sig: "C13:round1:faulty-piece:" + where + ":no-signature", obs: fmt.Sprintf("%x %x %v", h.Signature, h.Random, vr.VerifRoundCanProceed()),
+				msg: desc + fmt.Sprintf(": the round ended without block signature / beacon (Signature=%x Random=%x canProceed=%v)", h.Signature, h.Random, vr.VerifRoundCanProceed())}
+			return
+		}
+		if !bytes.Equal(h.Signature, g.expect[0]) || !bytes.Equal(h.Random, g.expect[1]) {
+			r = result{bad: true, sig: "C13:round1:faulty-piece:" + where + ":different-signature", obs: fmt.Sprintf("%x %x", h.Signature, h.Random),
+				msg: desc + fmt.Sprintf(": Signature=%x Random=%x, the all-honest run gives %x / %x", h.Signature, h.Random, g.expect[0], g.expect[1])}
+			return
+		}
+		r = result{outcome: "round1-fault:" + kind + ":same-signature-and-beacon", obs: "ok"}
+	})
+	if p {
+		return result{bad: true, sig: "C13:panic:" + site, msg: fmt.Sprintf("panic in round1 fault run: %v", v), obs: "panic:" + site}
+	}
+	return r
+}
+
 // gpkCollectorRun: members announce the group public key their DKG produced; what the collector adopts
 // must be the sum of the dealers' keys, and it must have adopted one when every member has announced.
 func gpkCollectorRun(g *group, ord []int, ch *fw.Chooser) result {
@@ -932,6 +1031,8 @@ func execCase(g *group, k *kase, ch *fw.Chooser) result {
 		return reuseRun(g, k.Msg)
 	case "parent":
 		return parentRun(g, k.Cand, k.Ord, ch)
+	case "round1-fault":
+		return round1FaultRun(g, k.Ord, k.Fault, k.FMem, k.FPos)
 	case "round1-start":
 		return round1Run(g, k.Msg, k.Ord, ch)
 	case "gpk-collector":
@@ -1030,16 +1131,39 @@ func explore(c *fw.Ctx, g *group, k kase, bound int) {
 
 var maxPoints int64
 
+var belong *access.JoinedGroupStorage
+
 func boot() {
-	common.Init(0, "1.ini", "dev")
-	// exactly what logical.InitConsensus does for the parameters
-	model.InitParam(common.GlobalConf.GetSectionManager("consensus"))
-	if notify.BUS == nil {
-		notify.BUS = notify.NewBus() // as middleware.InitMiddleware does; round0.NextRound unsubscribes from it
+	// the node services round1.Update relies on (chain singletons for the group-create processor,
+	// message bus, loggers), booted as the C15 check does
+	if err := node.Boot(node.ForksAllOn, true); err != nil {
+		panic(fmt.Sprintf("node boot: %v", err))
 	}
+	logical.InitConsensus() // model.Param (threshold rule) as the node initialises it
+	if notify.BUS == nil {
+		notify.BUS = notify.NewBus()
+	}
+	self := model.SelfMinerInfo{SecKey: *groupsig.NewSeckeyFromBigInt(new(big.Int).SetBytes(h256("c13 self miner key")))}
+	self.ID = groupsig.DeserializeID(h256("c13 self miner id"))
+	self.PubKey = *groupsig.GeneratePubkey(self.SecKey)
+	belong = access.NewJoinedGroupStorage()
+	group_create.GroupCreateProcessor.Init(self, belong)
+	group_create.GroupCreateProcessor.NetServer = netStub{}
 	ctl.orig = crand.Reader
 	crand.Reader = ctl
 }
+
+// stubs (the only non-production pieces round1 touches): the proposed block is not on the chain yet;
+// nothing is sent anywhere.
+type chainStub struct{ core.BlockChain }
+
+func (c *chainStub) HasBlockByHash(common.Hash) bool           { return false }
+func (c *chainStub) QueryBlockByHash(common.Hash) *types.Block { return nil }
+
+type netStub struct{ cnet.NetworkServer }
+
+func (netStub) SendVerifiedCast(*model.ConsensusVerifyMessage, groupsig.ID) {}
+func (netStub) AskSignPkMessage(*model.SignPubkeyReqMessage, groupsig.ID)   {}
 
 type tierParams struct {
 	ns       []int
@@ -1048,18 +1172,19 @@ type tierParams struct {
 	supRev   bool // supersets also inserted in reverse order
 	genBound func(n int) int
 	msgsFor  func(n, seed int) []int // message indices used for a group
+	faultNs  []int                   // group sizes of the round1 fault family
 	sweepN   int                     // message sweep: counters 0..sweepN-1 in every width
 }
 
 func params(thorough bool) tierParams {
 	if thorough {
-		return tierParams{ns: []int{3, 4, 5, 6, 7, 8, 9, 10}, seeds: 2, supBound: 2, supRev: true, sweepN: 20000,
+		return tierParams{ns: []int{3, 4, 5, 6, 7, 8, 9, 10}, seeds: 2, supBound: 2, supRev: true, sweepN: 20000, faultNs: []int{3, 4, 5},
 			genBound: func(int) int { return 1 },
 			msgsFor:  func(int, int) []int { return []int{0, 1} }}
 	}
 	// quick: the largest group uses one message per seed set and pins the collectors' map
 	// iteration to the insertion order (their arrival orders are still all enumerated)
-	return tierParams{ns: []int{3, 4, 5, 6, 10}, seeds: 2, supBound: 1, supRev: false, sweepN: 600,
+	return tierParams{ns: []int{3, 4, 5, 6, 10}, seeds: 2, supBound: 1, supRev: false, sweepN: 600, faultNs: []int{3, 4},
 		genBound: func(n int) int {
 			if n >= 8 {
 				return 0
@@ -1197,6 +1322,72 @@ func run(c *fw.Ctx) {
 			}
 		}
 		c.Count("cpu_ms_callsites", cpuMs()-t0)
+	}
+
+	// --- F. round1 with one piece that must not count: every honest subset of >= k members, arrival
+	// orders, fault kind, faulty member (inside or outside the honest subset), every position
+	{
+		t0 := cpuMs()
+		for _, n := range tp.faultNs {
+			full := n == 3 || (c.Thorough() && n == 4)
+			g := getGroup(n, 0, "hash")
+			if !g.ready() {
+				continue
+			}
+			for s := g.k; s <= n; s++ {
+				if !full && s != g.k && s != n {
+					continue
+				}
+				for _, sub := range combos(n, s) {
+					var orders [][]int
+					if full && s <= 4 {
+						orders = perms(s)
+					} else {
+						orders = rotrev(s)[:s] // rotations
+					}
+					for _, p := range orders {
+						ord := apply(sub, p)
+						for _, kind := range faultKinds {
+							var senders []int
+							if kind == "duplicate" {
+								senders = ord
+								if !full {
+									senders = ord[:1]
+								}
+							} else {
+								for j := 0; j < n; j++ {
+									senders = append(senders, j)
+								}
+								if !full { // one member outside the honest subset (if any) and the first one inside
+									senders = []int{ord[0]}
+									for j := 0; j < n; j++ {
+										in := false
+										for _, x := range ord {
+											in = in || x == j
+										}
+										if !in {
+											senders = append(senders, j)
+											break
+										}
+									}
+								}
+							}
+							for _, fm := range senders {
+								if !mine() || expired() {
+									continue
+								}
+								for pos := 0; pos <= s; pos++ {
+									ks := g.kase("round1-fault", 0)
+									ks.Ord, ks.Fault, ks.FMem, ks.FPos = ord, kind, fm, pos
+									record(c, g, ks, nil, execCase(g, &ks, nil))
+								}
+							}
+						}
+					}
+				}
+			}
+		}
+		c.Count("cpu_ms_round1-fault", cpuMs()-t0)
 	}
 
 	// --- S. message sweep: the whole property for two small groups over many messages
@@ -1421,6 +1612,7 @@ func main() {
 			"(dkg arrival order per member | share pairing check | RecoverGroupSignature on a map of s>=k shares | model.GroupSignGenerator | round1 groupSignGenerator | " +
 			"one set of share objects reused over consecutive recoveries of every k-subset, its supersets and both collectors, then re-verified | " +
 			"message sweep: the whole property for a fixed small group and one counter message | " +
+			"round1.Update fed the honest pieces of a subset of >= k members in an arrival order plus ONE piece that must not count (good block share + bad beacon share | bad block + good beacon | both bad | duplicate) from a member inside or outside the subset at every position | " +
 			"production call sites that size a collector themselves: createGroupContext (parent size, candidate count), round1.Start, group public key collector, DKG context with a larger candidate list) " +
 			"x ordered member subset x explorer choice sequence (which k iteration positions the random selection keeps, start slot of every map iteration). " +
 			"Start slots beyond the occupied ones of a one-bucket map are not enumerated (same order), so counted cases differ in input or in iteration order; " +
